@@ -90,12 +90,16 @@ func (w *iw) Write(buf []byte) (int, error) {
 func actualWrittenSize(underlay, prefix int, lines [][]byte) int {
 	actual := 0
 	remain := underlay
-	for _, line := range lines {
+	for i, line := range lines {
 		if len(line) == 0 {
 			continue
 		}
 
 		addition := remain - prefix
+		if i == 0 {
+			// The first element continues a partial line: no prefix was written before it.
+			addition = remain
+		}
 		if addition <= 0 {
 			return actual
 		}
@@ -105,7 +109,7 @@ func actualWrittenSize(underlay, prefix int, lines [][]byte) int {
 		}
 
 		actual += len(line)
-		remain -= prefix + len(line)
+		remain = addition - len(line)
 	}
 
 	return actual
